@@ -391,6 +391,14 @@ def main(argv=None):
         print(f'HARNESS-ERROR property={pid} cannot import check module')
         return 2
 
+    # transient replay files of earlier runs of this property
+    old = os.path.join(ROOT, 'replay', pid)
+    if os.path.isdir(old) and not args.only:
+        for fn in os.listdir(old):
+            try:
+                os.remove(os.path.join(old, fn))
+            except OSError:
+                pass
     known = load_known(pid)
     merged = TaskResult()
     per_sub = collections.OrderedDict()
@@ -555,8 +563,9 @@ def main(argv=None):
                     f'vacuity guard: sub-check {name} produced '
                     f'{len(r.nontrivial)} non-trivial / {judged} judged of '
                     f'{r.evaluations} cases')
-    os.makedirs(os.path.join(ROOT, 'evidence'), exist_ok=True)
-    ev_path = os.path.join(ROOT, 'evidence', f'{pid}.json')
+    ev_dir = os.environ.get('VERIF_EVIDENCE_DIR') or os.path.join(ROOT, 'evidence')
+    os.makedirs(ev_dir, exist_ok=True)
+    ev_path = os.path.join(ev_dir, f'{pid}.json')
     if args.only is None or not os.path.exists(ev_path):
         with open(ev_path, 'w') as f:
             json.dump(evidence, f, indent=1, default=str)
